@@ -108,6 +108,8 @@ func main() {
 		cmdRun(os.Args[2:])
 	case "replay":
 		cmdReplay(os.Args[2:])
+	case "script":
+		cmdScript(os.Args[2:])
 	case "digest":
 		cmdDigest(os.Args[2:])
 	case "racereport":
@@ -476,4 +478,23 @@ func cmdReplay(args []string) {
 		os.Exit(1)
 	}
 	fmt.Println("replay: no violation")
+}
+
+// cmdScript runs one fixed script with all monitors and prints every step (debugging aid).
+func cmdScript(args []string) {
+	v := 0
+	if len(args) > 0 {
+		fmt.Sscan(args[0], &v)
+	}
+	st := NewStats()
+	mon := NewMon(st)
+	attachC19(mon, 23)
+	attachC17(mon, 29)
+	mon.extra = append(mon.extra, func(sc *StepCtx) {
+		fmt.Printf("  [%d] h=%d t=%s %-90.90s %s res=%s %.80s\n", sc.Idx, sc.Post.Height, sc.Post.Time.Format("15:04:05.999999999"), sc.Step.Desc, sc.Step.Note, okStr(sc.Res), sc.Res.Err)
+	})
+	runScript(NewApp(), mon, 1, v)
+	for _, vi := range st.Violations {
+		fmt.Printf("VIOLATION %s step=%d %s\n", vi.Sig, vi.StepIdx, vi.Msg)
+	}
 }
